@@ -66,6 +66,9 @@ type fakeRegistry struct {
 	srv        *httptest.Server
 	uploadN    int
 	failNext   map[string]int // "METHOD path-prefix" -> status to return once
+	// faults on the referrers tag schema's index maintenance (not retried by the client: 4xx)
+	denyIndexDelete  bool // DELETE of an image index is refused with 405
+	failIndexPutOnce bool // the next PUT under a sha256-<hex> referrers tag is refused with 403
 	corrupt    func(w http.ResponseWriter, r *http.Request) bool
 	hook       func(r *http.Request)
 	served     [][]string // pages served by the listing endpoints, in order
@@ -554,6 +557,11 @@ func (f *fakeRegistry) serveManifest(w http.ResponseWriter, r *http.Request, nam
 		}
 	case http.MethodPut:
 		data, _ := io.ReadAll(r.Body)
+		if f.failIndexPutOnce && strings.HasPrefix(ref, "sha256-") {
+			f.failIndexPutOnce = false
+			writeErr(w, 403, "DENIED")
+			return
+		}
 		dg := digest.FromBytes(data)
 		if d := digest.Digest(ref); d.Validate() == nil {
 			if d != dg {
@@ -581,6 +589,10 @@ func (f *fakeRegistry) serveManifest(w http.ResponseWriter, r *http.Request, nam
 		dg, _, ok := resolve()
 		if !ok {
 			writeErr(w, 404, "MANIFEST_UNKNOWN")
+			return
+		}
+		if f.denyIndexDelete && repo.manifests[dg].mediaType == ocispec.MediaTypeImageIndex {
+			writeErr(w, 405, "UNSUPPORTED")
 			return
 		}
 		delete(repo.manifests, dg)
